@@ -364,7 +364,11 @@ def _keywords_through_edits(ctx, kw, cnode):
         consts = {k: v for k, v in _module_constants(ctx, RN).items() if k.startswith("_")}
         ts = W.evaluator(env=consts)
         ts.module_env = dict(consts)
-        top = W.build(ts)
+        # the topology of C04's worlds plus a ligand whose two hydrogens carry the same name (atoms that compare equal field by field are still
+        # different atoms: their bonds are their own)
+        spec = list(W.SPEC) + [("L", [("LIG", 9, "", [("H", "H", None), ("H", "H", None), ("O", "O", None)])])]
+        n0 = sum(len(r_[3]) for c_ in W.SPEC for r_ in c_[1])
+        top = W.build(ts, spec=spec, bonds=list(W.BONDS) + [(n0, n0 + 2, None, None), (n0 + 1, n0 + 2, None, None), (n0 + 1, 0, None, None)])
     except (Raised, PUnsupported) as e:
         ctx.undecided("C12-R1", cnode, SEL, "SelectionKeyword", "keyword attributes through a history of edits", "the model topology cannot be built: %s" % e)
         return
